@@ -776,6 +776,11 @@ def run(ctx):
             nets.append(c)
         for _ in range(ctx.scale(110, 1500)):
             nets.append({'topo': gen_case(rng), 'requests': None})
+    vec_nets = [c for c in nets if 'groups' in c]             # batches with a synchronisation vector (corpus / replay)
+    nets = [c for c in nets if 'groups' not in c]
+    if vec_nets:
+        from . import c12
+        c12.process(ctx, rng, vec_nets, 'C11', 'vecfix')
     # networks are processed in chunks so that at most ~120 designed gnpy networks are alive at a time
     chunk = 120
     for k0 in range(0, len(nets), chunk):
@@ -814,8 +819,13 @@ def run(ctx):
                 judge(ctx, N, rq, obs, txt, case)
         del terms, meta
     if not ctx.replay:
+        # members of a synchronisation vector: the include / strictness clause applies to them too (step 4 of
+        # compute_path_dsjctn); pairs with include lists over all element kinds, judged by route_ok and the
+        # proved-complete exists_disjoint_pair (machinery shared with the C12 check)
+        from . import c12
+        c12.process(ctx, rng, [c12.gen_vector_case(rng) for _ in range(ctx.scale(30, 500))], 'C11', 'vec')
         run_big(ctx, rng, ctx.scale(10, 80))
-    elif nets[0].get('big'):
+    elif nets and nets[0].get('big'):
         run_big(ctx, rng, 1, fixed=nets)
     ctx.assumptions += [
         'links, element kinds and OMS lists handed to Coq are read from the designed networkx graph / build_oms_list of '
